@@ -275,6 +275,8 @@ class Client(BaseComponent):
         except OSError as e:
             if e.args[0] in (EPIPE, ENOTCONN):
                 self._close()
+            elif e.args[0] in (EINTR, EWOULDBLOCK, ENOBUFS):
+                self._buffer.appendleft(data)
             else:
                 self.fire(error(e))
 
